@@ -269,11 +269,30 @@ def run(tier):
         cases.append((seq, wf, ctx, {r2.choice(at): r2.choice(sorted(EMBELLISH))}))
     scripts = []
     for b in range(0, len(cases), 400):
-        ops = [{"op": "set_rules_dir", "dir": "$RULES", "setup": True}]
+        ops = [{"op": "set_rules_dir", "dir": "$RULES", "setup": True}, {"op": "events_on", "setup": True}]
         for seq, wf, ctx, emb in cases[b:b + 400]:
             ops.append({"op": "set_mathml", "mathml": wrap(xml_of(seq, emb), ctx)})
+            ops.append({"op": "drain"})          # the chem_scan event of this expression (Chem.tla / Trace_Chem.tla)
         scripts.append({"id": f"rows{b}", "ops": ops, "isolate_on_panic": True})
     results = C.run_mcv(scripts, wd, name="rows", timeout_ms=60000)
+    chem_events, chem_back = [], []
+    for s, r in zip(scripts, results):
+        for o, rr in zip(s["ops"], r["results"]):
+            if o["op"] == "set_mathml":
+                last_xml = o["mathml"]
+            elif o["op"] == "drain" and rr["r"] == "ok":
+                for e in rr["v"] or []:
+                    if e.get("ev") == "chem_scan":
+                        chem_events.append({"before": e["rows_before"], "after": e["rows_after"], "reparse": 1 if e["reparse"] else 0})
+                        chem_back.append(last_xml)
+        # (the judgement below reads set_mathml results only)
+        keep = [i for i, o in enumerate(s["ops"]) if o["op"] != "drain"]
+        s["ops"] = [s["ops"][i] for i in keep]
+        r["results"] = [r["results"][i] for i in keep]
+    for s in scripts:
+        s["ops"] = [o for o in s["ops"] if o["op"] != "events_on"]
+    for r in results:
+        r["results"] = r["results"][:1] + r["results"][2:]
     events, back = [], []
     skipped = {"function-guess": 0, "degenerate-fence": 0, "not-ok": 0, "rewritten": 0}
     ci = 0
@@ -323,6 +342,20 @@ def run(tier):
     back += sback
     rejects, _, _ = C.validate_trace("Trace_OpPrec", "Trace_OpPrec.cfg", events, wd, timeout=3000, heap="12g")
     verdict = C.Verdict(PID)
+    # the protocol between the parses and the chemistry scan: rows removed => a second parse (Chem.tla)
+    chem_m1 = C.tlc_model_check("Chem", "MC_Chem_intended.cfg", wd, workers=2, timeout=300, coverage=False)
+    chem_asb = C.run_tlc("Chem", "MC_Chem_asbuilt519.cfg", wd, workers=2, timeout=300, coverage=False)
+    if chem_asb["violation"] != "ParsedAtEnd":
+        raise C.ToolError(f"the table branch of the pinned commit's chemistry scan is not refuted by TLC ({chem_asb['violation']}, {chem_asb['error']})")
+    if len(chem_events) < n_generated // 2:
+        raise C.ToolError(f"only {len(chem_events)} chem_scan events for {n_generated} expressions (hook missing?)")
+    crej, _, _ = C.validate_trace("Trace_Chem", "Trace_Chem.cfg", chem_events, wd, name="chem", timeout=1800, heap="4g")
+    for idx, reason in crej:
+        xml = chem_back[idx - 1]
+        e = chem_events[idx - 1]
+        verdict.reject(f"{reason}|{S.fp(xml)}", f"{reason}: {e['before']} added rows before the scan, {e['after']} after, no second parse: {xml[:300]}",
+                       {"script": [{"op": "set_rules_dir", "dir": "$RULES"}, {"op": "set_mathml", "mathml": xml}]},
+                       text=json.dumps({"reason": reason, "mathml": xml[:600], "before": e["before"], "after": e["after"]}, ensure_ascii=False))
     for idx, reason in rejects:
         kind, xml, seq = back[idx - 1]
         e = events[idx - 1]
@@ -343,6 +376,9 @@ def run(tier):
         "exhaustive": False, "enumerated_sequences": len(seqs), "random_rows": n_rand, "generated_rows_judged": n_generated, "suite_rows_judged": len(sev),
         "dictionary_entries": len(D), "operators_drawn_from": len(pool), "rows_outside_the_plain_class": skipped,
         "rows_with_parse_demanded": sum(1 for e in events if e["plain"] == 1 and e["toks"]), "enumerated_sequences_well_formed": sum(1 for st in seqs if st["wf"]),
+        "chem_scan_events_judged": len(chem_events), "chem_scan_second_parses": sum(e["reparse"] for e in chem_events),
+        "chem_scan_rows_removed": sum(1 for e in chem_events if e["after"] < e["before"]), "chem_model_states": chem_m1["distinct"],
+        "chem_asbuilt_pinned_commit_refuted_by": chem_asb["violation"],
         "asbuilt_stacked_prefix_refuted_by": asb["violation"], "asbuilt_pinned_commit_refuted_by": asb2["violation"], "trace_events_rejected": len(rejects),
     }, time.time() - t0, len(verdict.violations),
         ["the reference parse is the operator-precedence parse with the as-built tie rules (different operators of equal priority nest to the right; "
